@@ -51,4 +51,40 @@ func init() {
 				Bound: "independent ISO 13818-7 writer: id, protection_absent, private/original/home/copyright bits, 11-bit fullness, 2 CRC bytes symbolic; profile Main/LC/SSR x index 1..12 x channels 1..7 symbolic; raw 1-4 symbolic bytes; 0-2 trailing symbolic bytes"},
 		},
 	})
+	reg(&propSpec{
+		ID:          "C09",
+		Rule:        "Harnesses in harness/flv/c09.go: muxer vs independent FLV v1 writer, muxer->demuxer and reference->demuxer under forked read segmentations.",
+		Assumptions: commonAssumptions,
+		Harnesses: []harnessSpec{
+			{Pkg: "flv", Func: "HarnessC09_Mux", Labels: []string{"mux"},
+				Bound:  "flags 2 symbolic bools; 1-2 tags; type 8 symbolic bits, timestamp 32 symbolic bits; first body 0-3 symbolic bytes or 255/256/65535/65536 bytes (3 symbolic positions, patterned filler), second body 0-3 symbolic bytes",
+				BoundT: "as quick with small bodies 0-8 and boundary sizes 255,256,65524,65525,65535,65536,65537,131071,2^24-1"},
+			{Pkg: "flv", Func: "HarnessC09_RoundTrip", Labels: []string{"roundtrip"},
+				Bound: "as Mux; reader segmentation: whole / fixed chunks (1 byte for files <= 64 bytes, else 4093) / one split point at every offset (files <= 40 bytes) or within +-2 of every structural boundary"},
+			{Pkg: "flv", Func: "HarnessC09_RefDemux", Labels: []string{"refdemux"},
+				Bound: "as RoundTrip, file produced by the independent FLV v1 writer"},
+		},
+	})
+	reg(&propSpec{
+		ID:          "C10",
+		Rule:        "Harnesses in harness/flv/c10.go: frame fields symbolic over their full Go types under the frame validity predicate; canonical bodies as arbitrary byte strings.",
+		Assumptions: append([]string{"validity predicate of frames: SoundFormat<16, SoundSize<2, SoundType<2; SoundRate<4 (non-Opus) or a defined Opus rate iff the sampling-rate trait flag is set (else 0); AudioLevel 0 without the level flag; Trait only for AAC/Opus/AVC/HEVC; FrameType,CodecID<16; CTS in [0,2^24) for AVC/HEVC else 0", "canonical Opus body: the two sound-rate bits of the first byte are zero"}, commonAssumptions...),
+		Harnesses: []harnessSpec{
+			{Pkg: "flv", Func: "HarnessC10_AudioRT", Labels: []string{"audio-rt"}, Bound: "all valid audio frames (fields symbolic), raw 0-3 symbolic bytes"},
+			{Pkg: "flv", Func: "HarnessC10_VideoRT", Labels: []string{"video-rt"}, Bound: "all valid video frames (fields symbolic, CTS 24 bits), raw 0-4 symbolic bytes"},
+			{Pkg: "flv", Func: "HarnessC10_AudioCanon", Labels: []string{"audio-canon", "audio-canon-rejected"}, Bound: "every byte string of 1-7 bytes as audio tag body"},
+			{Pkg: "flv", Func: "HarnessC10_VideoCanon", Labels: []string{"video-canon", "video-canon-rejected"}, Bound: "every byte string of 1-7 bytes as video tag body"},
+			{Pkg: "flv", Func: "HarnessC10_Rates", Labels: []string{"rates-flv", "rates-opus"}, Bound: "all defined FLV (0-3) and Opus (8,12,16,24,48) rate codes, receiver symbolic"},
+		},
+	})
+	reg(&propSpec{
+		ID:          "C12",
+		Rule:        "Harnesses in harness/avc/c12.go: NAL units, configuration records and samples against an ISO/IEC 14496-15 reference writer.",
+		Assumptions: append([]string{"values are unmarshalled into fresh objects (UnmarshalBinary appends to existing SPS/PPS/NALU lists)", "nal_ref_idc < 4, nal_unit_type < 32 (the fields' widths)"}, commonAssumptions...),
+		Harnesses: []harnessSpec{
+			{Pkg: "avc", Func: "HarnessC12_NALU", Labels: []string{"nalu"}, Bound: "all 256 header bytes (symbolic), payload 0-3 symbolic bytes", BoundT: "payload also 254/255/256/65534 bytes (2 symbolic positions)"},
+			{Pkg: "avc", Func: "HarnessC12_Record", Labels: []string{"record"}, Bound: "profile/compat/level 8 symbolic bits each, lengthSizeMinusOne 0..3 symbolic, 0-2 SPS and 0-2 PPS with symbolic headers and 0-2 symbolic payload bytes", BoundT: "also 31 SPS + 255 PPS of one symbolic byte each"},
+			{Pkg: "avc", Func: "HarnessC12_Sample", Labels: []string{"sample"}, Bound: "NAL length size 1..4, 0-3 NAL units with symbolic headers and 0-2 payload bytes", BoundT: "first NAL unit also at sizes 253-256, 65533-65536 where the length size allows"},
+		},
+	})
 }
